@@ -12,7 +12,7 @@ contract("monkeytype.util:get_name_in_module", props=["C10", "C08"], theories=TH
          loops={0: {"iter": "qualname.split('.')",
                     "inv": {"obj": "obj is walk_(imported_(module), %s, _i)" % _PARTS,
                             "found": "forall(range_(0, _i), lambda q: has_attr(walk_(imported_(module), %s, q), nth(%s, q)))" % (_PARTS, _PARTS)}}},
-         note="assumes: importing a stored module either succeeds or raises ModuleNotFoundError; attribute access either succeeds or raises AttributeError; a caller-supplied attr_getter behaves like getattr")
+         note="assumes: importing a stored module either succeeds or raises an ImportError (any subclass); attribute access either succeeds or raises some Exception (AttributeError, or what a module __getattr__ / property on the way raises); a caller-supplied attr_getter behaves like getattr")
 
 from contracts._texts import _FN_OF, _BAD
 def _fn(m, q):
